@@ -94,19 +94,22 @@ func HarnessC39Tree() {
 			FileEntry("e", NewSliceDirectory([]DirEntry{
 				FileEntry("deep", NewBytesFile([]byte("D"))),
 			})),
+			FileEntry("e.x", NewBytesFile([]byte("E"))),
 		}, st)),
-		FileEntry("empty", NewSliceDirectory(nil)),
+		// siblings whose names extend the name of the directory before them
+		FileEntry("d2", NewSliceDirectory(nil)),
+		FileEntry("d2x", NewBytesFile(nil)),
 		FileEntry("l", NewSymlinkFile(string(tgt)+"x", time.Unix(99, 0))),
-		FileEntry("z", NewBytesFile(nil)),
 	})
 	want := []zzvItem{
 		{path: "/d", kind: 'd', mode: st.mode, mtime: st.mtime},
 		{path: "/d/" + nm, kind: 'f', payload: string(content), mode: fileStat.mode, mtime: fileStat.mtime},
 		{path: "/d/e", kind: 'd'},
 		{path: "/d/e/deep", kind: 'f', payload: "D"},
-		{path: "/empty", kind: 'd'},
+		{path: "/d/e.x", kind: 'f', payload: "E"},
+		{path: "/d2", kind: 'd'},
+		{path: "/d2x", kind: 'f'},
 		{path: "/l", kind: 'l', payload: string(tgt) + "x", mode: os.ModeSymlink | os.ModePerm, mtime: time.Unix(99, 0)},
-		{path: "/z", kind: 'f'},
 	}
 
 	mfr := NewMultiFileReader(tree, form, false)
